@@ -17,6 +17,7 @@ PROBES = {
     "p3": "f(a as fa) > g > a",
     "p4": "g > a",
     "p5": "f(!b, a)",
+    "p6": "f > g > a",
     "bad": "f > zzz",
     "bad2": "g > #nope",
 }
@@ -72,6 +73,8 @@ def run_case(case):
                         p.__exit__(type(ex), ex, ex.__traceback__)
                 elif op[2] == "explicit":
                     p.deactivate()
+                elif op[2] == "derived":
+                    p.map(lambda x: x).deactivate()
                 else:
                     p.__exit__(None, None, None)
             elif op[0] == "call":
